@@ -54,6 +54,11 @@ CHECKS["C08"] = dict(engine="coll-mc", ref="§3 C08", technique="exhaustive oper
 CHECKS["C09"] = dict(engine="str-mc", ref="§3 C09", technique="exhaustive operation-sequence exploration of the real string types in lock-step with std::string::String, plus exhaustive enumeration of decoder and C-string inputs",
     note="Bounds: depth 2 (quick) / 3 (thorough), 6 initial strings over 1-4 byte characters and NUL, every byte index 0..=len+1, byte strings of length <= 4 over a 14-byte alphabet, u16 strings of length <= 4 over 8 code units, C-string texts of length <= 4; model = std String driven through the same operation macros.",
     text="BumpString, MutBumpString, FixedBumpString and BumpBox<str> are driven through every operation sequence up to the depth bound with every byte index (boundary or not) and compared with std String after every operation (value, contents, len, panic parity, UTF-8 validity even after a panic, capacity >= len, earlier split-off pieces intact); from_utf8 / from_utf8_lossy / from_utf16(_lossy) are compared with std on all inputs of the bounded alphabets incl. error positions; all C-string constructors are checked on all bounded texts with embedded NULs.")
+CHECKS["C16"] = dict(engine="coll-mc", ref="§3 C16", technique="exhaustive enumeration of split operations, ranges and follow-up operation sequences on the real owned-slice types with a partition oracle",
+    note="Bounds: lengths 0..4 (quick) / 0..5, extra capacity 0..2, every range incl. invalid ones, follow-up depth 2 (quick) / 3 over 21 follow-up operations, sized and zero-sized elements, 4 arena configurations. String split_off pieces are covered by C09's engine.",
+    text="Every split operation (split_off with every start/end pair, split_at, split_first/last, split_off_first/last, partition, split_at_spare, map_in_place) on BumpBox<[T]>, FixedBumpVec and BumpVec is followed by every bounded sequence of follow-up operations on the parts (push until growth, shrink_to_fit, truncate, clear, pop, drop, into_boxed_slice, dealloc, merge back, merge in the wrong order, a fresh allocation): the parts must contain exactly the original elements, each once, in the documented order, must not share memory, capacities must add up, merge must restore adjacent parts and reject non-adjacent ones, no operation on one part may change another, and every value is dropped exactly once.")
+CHECKS["C07"]["engine"] = "arena-mc + coll-mc"
+CHECKS["C07"]["text"] = CHECKS["C07"]["text"] + " Collection part (coll-mc): for BumpVec, MutBumpVec and MutBumpVecRev (sized and zero-sized elements, initial lengths 0..4) every try_ growth operation is run with the k-th base-allocator call after the collection exists refused (alone, or with all later ones): it must return Err without panicking, leave length and contents unchanged, the collection must keep working once the fault is lifted, and drop / release accounting must be exact. Not covered: that panicking twins never return normally under allocation failure (they abort the process via handle_alloc_error; see DESIGN.md)."
 CHECKS["C12"]["engine"] = "pure-mc + arena-mc"
 CHECKS["C12"]["text"] = "Pure part: ChunkSizeConfig compiled from /repo/src/chunk/size_config.rs is evaluated on the complete product of allocator value layouts x direction x minimum chunk size x capacity layouts (sizes up to the isize limit, aligns to 2^29) x extra granted bytes x every base-address phase: computed sizes are multiples of 16 (and of the header alignment downwards), the layout fits for every phase and min_align, growth is >= 2x-16, overflow yields None only near the address-space limit. " + CHECKS["C12"]["text"]
 
@@ -88,7 +93,7 @@ def main():
         "engines": [
             {"name": "arena-mc", "path": "harness/arena-mc", "serves_properties": [p for p in sorted(CHECKS) if "arena-mc" in CHECKS[p]["engine"]], "kind_free_text": "explicit-state exploration of real Bump/BumpScope over an instrumented deterministic base allocator"},
             {"name": "mutcoll-mc", "path": "harness/mutcoll-mc", "serves_properties": ["C15"], "kind_free_text": "the arena explorer built for configurations that carry the exclusive-borrow collection drivers"},
-            {"name": "coll-mc", "path": "harness/coll-mc", "serves_properties": ["C06", "C08"], "kind_free_text": "differential exploration of the vector-like collections against std models with callback-panic injection"},
+            {"name": "coll-mc", "path": "harness/coll-mc", "serves_properties": ["C06", "C07", "C08", "C16"], "kind_free_text": "differential exploration of the vector-like collections against std models with callback-panic injection"},
             {"name": "str-mc", "path": "harness/str-mc", "serves_properties": ["C09"], "kind_free_text": "differential exploration of the string types against std String; exhaustive decoder / C-string input enumeration"},
             {"name": "pool-loom", "path": "harness/pool-loom", "serves_properties": ["C19"], "kind_free_text": "loom model checking of the real BumpPool (cfg hook: loom Mutex)"},
             {"name": "pure-mc", "path": "harness/pure-mc", "serves_properties": ["C11", "C12"], "kind_free_text": "exhaustive input-lattice enumeration of the bump and chunk-size arithmetic compiled from the repository's source files"},
